@@ -126,6 +126,7 @@ theorem step_trk_other (s : Sys F) (e : Ev) (h : ∀ now pkt, e ≠ .client now 
   | failNext cid => rfl
   | failBind cid => rfl
   | stamp idx weak ld ccb cct => rfl
+  | syncTimeout => rfl
 
 /-! ## Shell invariant: remembered ids are ids of links -/
 
